@@ -135,7 +135,8 @@ def run_declared(case):
             elif k == "open" and opened is None:
                 it = iter(an(entity(let(_H.HA, None))).evaluate())
                 first = next(it, None)
-                opened = (it, set(alive()), [first] if first is not None else [])
+                # remembered by census NAME: an instance born later can get the address (the id) of one that died meanwhile
+                opened = (it, set(alive().values()), [first] if first is not None else [])
                 first = None
             elif k == "drain_open" and opened is not None:
                 it, at_open, sofar = opened
@@ -143,7 +144,7 @@ def run_declared(case):
                 results = sofar + rest
                 now = alive()
                 names = [now.get(id(x), "<not a live instance>") if x is not None else "None" for x in results]
-                must = {x for x in at_open if x in now}
+                must = {x for x, name in now.items() if name in at_open}
                 ids = [id(x) for x in results if x is not None]
                 del rest, sofar
                 opened = None
